@@ -38,21 +38,22 @@ def run (d : Dir) (ops : List Op) : Dir := ops.foldl step d
 /-- `if mode == 0 { mode = 0664 }` -/
 def effMode (mode : Nat) : Nat := if mode = 0 then 0o664 else mode
 
-/-- the calls of fs.WriteFile, by the name the fact extractor gives them -/
-def callOps (t dest : String) (chunks : List (List UInt8)) (mode : Nat) : String → List Op
+/-- the calls of fs.WriteFile, by the name the fact extractor gives them; `ct` = the path handed to Chmod (the
+    temporary in the code as it is: the mode is set BEFORE the file appears under its final name) -/
+def callOps (ct t dest : String) (chunks : List (List UInt8)) (mode : Nat) : String → List Op
   | "MkdirAll" => [.mkdirAll]
   | "CreateTemp" => [.createTemp t]
   | "Copy" => chunks.map (.write t)
   | "Close" => [.close]
-  | "Chmod" => [.chmod t (effMode mode)]
+  | "Chmod" => [.chmod ct (effMode mode)]
   | "renameFile" => [.rename t dest]
   | _ => []
 
-def opsWith (order : List String) (t dest : String) (chunks : List (List UInt8)) (mode : Nat) : List Op :=
-  order.flatMap (callOps t dest chunks mode)
+def opsWith (order : List String) (ct t dest : String) (chunks : List (List UInt8)) (mode : Nat) : List Op :=
+  order.flatMap (callOps ct t dest chunks mode)
 
 def codedCalls : List String := ["MkdirAll", "CreateTemp", "Copy", "Close", "Chmod", "renameFile"]
 
-def ops (t dest : String) (chunks : List (List UInt8)) (mode : Nat) : List Op := opsWith codedCalls t dest chunks mode
+def ops (t dest : String) (chunks : List (List UInt8)) (mode : Nat) : List Op := opsWith codedCalls t t dest chunks mode
 
 end PlzVerif.WriteFile
